@@ -273,8 +273,74 @@ func (P *Prog) buildVC(fn *ssa.Function, opts *VerifyOpts, houdini bool) (res *F
 	if start == st0 {
 		start = st0
 	}
+	var checkExit func(fr *Frame, exit *State, results []Val, sfx string)
+	perReturn := c != nil && c.Props["per-return"]
+	if perReturn {
+		ex.onReturn = func(fr *Frame, st *State, vals []Val, k int) {
+			vs := make([]Val, len(vals))
+			for i := range vals {
+				vs[i] = vals[i]
+				vs[i].T = fn.Signature.Results().At(i).Type()
+			}
+			dummy.vals = fr.vals
+			checkExit(fr, st, vs, fmt.Sprintf("@ret%d", k))
+		}
+	}
+	var penv *SpecEnv
+	checkExit = func(fr *Frame, exit *State, results []Val, sfx string) {
+		// ghost updates at exit
+		exit = ghostAt("exit", exit, results)
+		// postconditions
+		penv = ex.newEnv(exit, st0, fr)
+		penv.pkg = env.pkg
+		for k, v := range env.vars {
+			penv.vars[k] = v
+		}
+		if c != nil {
+			for i, n := range contractResultNames(c, fn.Signature) {
+				penv.vars[n] = results[i]
+			}
+			for i, e := range c.Ensures {
+				lbl := e.Label
+				if lbl == "" {
+					lbl = fmt.Sprintf("%d", i)
+				}
+				fr.obligeClause(exit, "post", lbl+sfx, penv, e, nil)
+			}
+			if c.HasMod {
+				P.frameObligations(ex, fr, c, env, st0, exit)
+			}
+		}
+		for _, ic := range ifcs {
+			e2 := ex.newEnv(exit, st0, fr)
+			e2.pkg = contractPkg(ic.Func)
+			e2.vars = ifEnvVars(ic)
+			for i, n := range contractResultNames(ic, fn.Signature) {
+				e2.vars[n] = results[i]
+			}
+			for i, e := range ic.Ensures {
+				lbl := e.Label
+				if lbl == "" {
+					lbl = fmt.Sprintf("%d", i)
+				}
+				fr.obligeClause(exit, "iface", strings.TrimPrefix(ic.Func, "iface:")+"/"+lbl+sfx, e2, e, nil)
+			}
+		}
+		// type invariants of modified receivers/params at exit
+		ex.invSuffix = sfx
+		for i, p := range fn.Params {
+			P.checkTypeInv(ex, fr, exit, params[i], p.Type())
+		}
+		for i, r := range results {
+			if isPointer(r.T) && len(r.L) > 0 {
+				P.checkTypeInv(ex, fr, exit, r, fn.Signature.Results().At(i).Type())
+			}
+		}
+		ex.invSuffix = ""
+	}
 	// run
 	fr, exit, results := ex.runFunc(fn, params, free, start, false, 0)
+	ex.onReturn = nil
 	dummy.vals = fr.vals
 	res.Loops = len(fr.loops)
 	for _, li := range fr.loops {
@@ -292,74 +358,11 @@ func (P *Prog) buildVC(fn *ssa.Function, opts *VerifyOpts, houdini bool) (res *F
 		res.Obls = ex.obls
 		return res
 	}
-	var penv *SpecEnv
-	checkExit := func(exit *State, results []Val, sfx string) {
-	// ghost updates at exit
-	exit = ghostAt("exit", exit, results)
-	// postconditions
-	penv = ex.newEnv(exit, st0, fr)
-	penv.pkg = env.pkg
-	for k, v := range env.vars {
-		penv.vars[k] = v
-	}
-	if c != nil {
-		for i, n := range contractResultNames(c, fn.Signature) {
-			penv.vars[n] = results[i]
-		}
-		for i, e := range c.Ensures {
-			lbl := e.Label
-			if lbl == "" {
-				lbl = fmt.Sprintf("%d", i)
-			}
-			fr.obligeClause(exit, "post", lbl+sfx, penv, e, nil)
-		}
-		if c.HasMod {
-			P.frameObligations(ex, fr, c, env, st0, exit)
-		}
-	}
-	for _, ic := range ifcs {
-		e2 := ex.newEnv(exit, st0, fr)
-		e2.pkg = contractPkg(ic.Func)
-		e2.vars = ifEnvVars(ic)
-		for i, n := range contractResultNames(ic, fn.Signature) {
-			e2.vars[n] = results[i]
-		}
-		for i, e := range ic.Ensures {
-			lbl := e.Label
-			if lbl == "" {
-				lbl = fmt.Sprintf("%d", i)
-			}
-			fr.obligeClause(exit, "iface", strings.TrimPrefix(ic.Func, "iface:")+"/"+lbl+sfx, e2, e, nil)
-		}
-	}
-	// type invariants of modified receivers/params at exit
-	ex.invSuffix = sfx
-	for i, p := range fn.Params {
-		P.checkTypeInv(ex, fr, exit, params[i], p.Type())
-	}
-	for i, r := range results {
-		if isPointer(r.T) && len(r.L) > 0 {
-			P.checkTypeInv(ex, fr, exit, r, fn.Signature.Results().At(i).Type())
-		}
-	}
-	ex.invSuffix = ""
-	}
 	// cover: exit reachable
 	cov := &Obligation{Name: funcKey(fn) + "#cover[exit]", Kind: "cover", Fn: funcKey(fn), Mark: ex.vc.mark(), Goal: Not(exit.reach), vc: ex.vc}
 	ex.covers = append(ex.covers, cov)
-	if c != nil && c.Props["per-return"] && len(fr.rets) > 1 {
-		// path-sensitive exit checks: one set of obligations per return statement
-		for k, r := range fr.rets {
-			vals := make([]Val, len(r.vals))
-			for i := range r.vals {
-				vals[i] = r.vals[i]
-				vals[i].T = fn.Signature.Results().At(i).Type()
-			}
-			rs := r.st.clone()
-			checkExit(rs, vals, fmt.Sprintf("@ret%d", k+1))
-		}
-	} else {
-		checkExit(exit, results, "")
+	if !perReturn {
+		checkExit(fr, exit, results, "")
 	}
 	if opts != nil && opts.Extra != nil {
 		opts.Extra(ex, fr, exit, results, penv)
@@ -445,6 +448,9 @@ func (P *Prog) checkTypeInv(ex *Exec, fr *Frame, st *State, v Val, t types.Type)
 	for _, it := range P.invTargets(ex, v, t) {
 		env := ex.newEnv(st, ex.entry, fr)
 		env.pkg = it.tn[:strings.Index(it.tn, ".")]
+		if fr != nil && fr.fn != nil && len(fr.vals) > 0 {
+			fr.bindTopVars(env) // parameters are visible to per-function cuts
+		}
 		env.vars["this"] = it.v
 		for i, c := range it.cs {
 			lbl := c.Label
@@ -708,6 +714,11 @@ func (P *Prog) houdini(fn *ssa.Function, opts *VerifyOpts) {
 			}
 		}
 	}
+	// phase 1 infers the quantifier-free candidates, phase 2 adds the (quantified)
+	// frame candidates on top of the survivors, so that slow frame queries cannot
+	// make good bounds time out
+	for phase := 1; phase <= 2; phase++ {
+	P.houdiniPhase = phase
 	// first run: all candidates
 	var keep map[string]map[string]bool
 	for iter := 0; iter < 8; iter++ {
@@ -715,7 +726,7 @@ func (P *Prog) houdini(fn *ssa.Function, opts *VerifyOpts) {
 		if keep == nil {
 			// remove any earlier decision for this function's loops
 			for k := range P.autoInv {
-				if strings.HasPrefix(k, funcKey(fn)+"/loop") {
+				if strings.HasPrefix(k, funcKey(fn)+"/loop") && !strings.HasSuffix(k, "#phase1") {
 					delete(P.autoInv, k)
 				}
 			}
@@ -727,6 +738,7 @@ func (P *Prog) houdini(fn *ssa.Function, opts *VerifyOpts) {
 			res = P.buildVC(fn, opts, false)
 		}
 		if res.Unsupported != "" {
+			P.houdiniPhase = 0
 			return
 		}
 		if keep == nil {
@@ -750,17 +762,18 @@ func (P *Prog) houdini(fn *ssa.Function, opts *VerifyOpts) {
 			cwg.Add(1)
 			go func(o *Obligation) {
 				defer cwg.Done()
-				sliced, _ := o.vc.slicedQuery(o.Mark, o.Goal)
-				o.Res = solve(sliced, opts.OutDir, o.Name+".cand", 2, "z3")
 				quantified := strings.Contains(o.Label, "/frame ")
-				if o.Res.Status != "unsat" && !(quantified && o.Res.Status == "timeout") {
-					// the slice may have dropped a needed definition: retry on the full VC
-					full := o.vc.query(o.Mark, nil, o.Goal, false)
-					t := 2
-					if !quantified {
-						t = 8
+				if quantified {
+					sliced, _ := o.vc.slicedQuery(o.Mark, o.Goal)
+					o.Res = solve(sliced, opts.OutDir, o.Name+".cand", 2, "z3")
+					if o.Res.Status == "sat" || o.Res.Status == "unknown" {
+						full := o.vc.query(o.Mark, nil, o.Goal, false)
+						o.Res = solve(full, opts.OutDir, o.Name+".cand", 2, "z3,z3-new")
 					}
-					o.Res = solve(full, opts.OutDir, o.Name+".cand", t, "z3,cvc5")
+				} else {
+					// bounds, typestate and parameter invariants: these decide later proofs, so
+					// they get the whole pipeline
+					o.Res = solveObligation(o, opts.OutDir, 10)
 				}
 			}(o)
 		}
@@ -801,7 +814,23 @@ func (P *Prog) houdini(fn *ssa.Function, opts *VerifyOpts) {
 			P.autoInv[k] = v
 		}
 		if !dropped {
-			return
+			break
+		}
+	}
+	if phase == 1 {
+		for k, v := range keep {
+			cp := map[string]bool{}
+			for l := range v {
+				cp[l] = true
+			}
+			P.autoInv[k+"#phase1"] = cp
+		}
+	}
+	}
+	P.houdiniPhase = 0
+	for k := range P.autoInv {
+		if strings.HasSuffix(k, "#phase1") {
+			delete(P.autoInv, k)
 		}
 	}
 }
@@ -1041,21 +1070,39 @@ func (P *Prog) saveHints(path string) {
 // is a proof of the obligation; "sat" is only believed from stage 3.
 func solveObligation(o *Obligation, outDir string, timeout int) SolveResult {
 	spent := 0.0
-	// stage 1: sliced VC, lean instantiation (only hypotheses over the goal's own variables)
-	q1, _ := o.vc.instantiatedQuery(o.Mark, o.Goal, true, true)
-	r := solve(q1, outDir, o.Name+".s1", 4, "z3,z3-new")
+	// stage 1: full VC, lean instantiation (only hypotheses over the goal's own variables);
+	// very large VCs start with the heap-sliced form instead
+	q1, _ := o.vc.instantiatedQuery(o.Mark, o.Goal, false, true)
+	if len(q1) > 400000 {
+		qs, _ := o.vc.instantiatedQuery(o.Mark, o.Goal, true, true)
+		if len(qs) < len(q1)/2 {
+			r0 := solve(qs, outDir, o.Name+".s0", 3, "z3,z3-new")
+			spent += r0.Time
+			if r0.Status == "unsat" {
+				r0.Solver += "/s0"
+				return r0
+			}
+		}
+	}
+	r := solve(q1, outDir, o.Name+".s1", 3, "z3,z3-new")
 	spent += r.Time
 	if r.Status == "unsat" {
+		r.Solver += "/s1"
 		return r
 	}
-	// stage 2: full VC, lean instantiation
-	q2, n2 := o.vc.instantiatedQuery(o.Mark, o.Goal, false, true)
+	// stage 2: heap-sliced VC, lean instantiation (large VCs with many unrelated heaps)
+	q2, n2 := o.vc.instantiatedQuery(o.Mark, o.Goal, true, true)
+	if len(q2) < len(q1)*3/4 {
+		n2 = 1
+	} else {
+		n2 = 0
+	}
 	if n2 > 0 {
 		r2 := solve(q2, outDir, o.Name+".s2", timeout, "z3,z3-new")
 		spent += r2.Time
 		if r2.Status == "unsat" {
 			r2.Time = spent
-			r2.Solver += "+inst"
+			r2.Solver += "/s2"
 			return r2
 		}
 	}
@@ -1066,13 +1113,14 @@ func solveObligation(o *Obligation, outDir string, timeout int) SolveResult {
 		spent += r3.Time
 		if r3.Status == "unsat" {
 			r3.Time = spent
-			r3.Solver += "+inst"
+			r3.Solver += "/s3"
 			return r3
 		}
 	}
 	// stage 4: the VC as generated, whole portfolio
 	r4 := solve(o.vc.query(o.Mark, nil, o.Goal, false), outDir, o.Name, timeout, "")
 	r4.Time += spent
+	r4.Solver += "/s4"
 	return r4
 }
 
